@@ -53,6 +53,15 @@ CLAIMED["C05"] = dict(
     text="Decides the detection wiring of the malicious shuffle: MAC tags are added before shuffling, verify_shuffle is awaited and `?`-propagated before the rows are released from the same table, each documented hash comparison is present, compares a local with a received hash and gates Ok; report fields are packed and unpacked in the same order and the tag is cut at the share's byte size. The permutation/multiset property and output-share consistency are numerical and not decided.",
     ref="§3 C05")
 
+CLAIMED["C11"] = dict(
+    technique="static analysis: dominator ordering with await settlement and `?` edges in the query runner's closure tree, def-use provenance of the checked collection and of each tag, parameter-use (taint) analysis of the routing closure, verdict-guard polarity of the set insertion",
+    text="Decides that the duplicate check cannot be skipped or misrouted: check_duplicates runs on the tag component of the resharded result, after resharding settled and before hybrid_protocol is created, with its error `?`-propagated; each tag is taken from the very encrypted report that is decrypted (16-byte ciphertext prefix); routing depends only on the tag (the RecordId parameter is never read) via tag % shard_count; check_duplicate returns Ok only when HashSet::insert reports a new value. Collision probability of distinct reports and the exchange itself (C19) are not decided here.",
+    ref="§3 C11")
+CLAIMED["C19"] = dict(
+    technique="static analysis: def-use / expression extraction for the destination and counters, keep-xor-send branch analysis (reachability from each edge of the dest == my_shard test), avoid-reachability pairing for close-all, `?`-propagation check of every fallible await, shape of result assembly",
+    text="Decides the structural part of resharding: the destination is exactly shard_picker(ctx, RecordId::from(counter), &record) with the counter advancing once per record; a record is either kept (no send reachable) or sent to send_channels[dest] with the send awaited and `?`-propagated and the per-destination record id advanced, never both; all channels are closed when the input ends; stream and transport errors are propagated; records are stored by source shard and flattened in index order; the send loop is sequential. Multiset equality and timing behaviour are not decided.",
+    ref="§3 C19")
+
 NOT_APPLICABLE = {
     "C01": "end-to-end numerical equality of the MPC histogram with a plaintext reference over all inputs/shardings: no clause of it is visible in code shape; static analysis in reach cannot bound it (DESIGN.md §4)",
     "C07": "functional correctness of arithmetic/Boolean circuits over all operand values is numerical; would need symbolic execution of the circuits, a different technique family (DESIGN.md §4)",
@@ -88,7 +97,7 @@ def main():
         na.append({"property_id": pid, "reason": NOT_APPLICABLE.get(pid, PENDING)})
     m = {
         "version": 1,
-        "setup_cmd": "cd /verif/driver && CARGO_NET_OFFLINE=true cargo +nightly build --release --offline && cd /verif && python3 -m vlib.extract Q",
+        "setup_cmd": "cd /verif/driver && CARGO_NET_OFFLINE=true cargo +nightly build --release --offline && cd /verif && python3 -m vlib.extract Q M",
         "hooks": {
             "guard": "ipa_verif",
             "enable": "no hooks: checks analyse /repo's unmodified sources through a rustc driver (RUSTC_WORKSPACE_WRAPPER); the cfg name ipa_verif is reserved and unused",
